@@ -680,7 +680,13 @@ func (a *Analysis) onlyIndexedForReading(g *ssa.Global, startupOnly func(*ssa.Fu
 					}
 					switch u := in.(type) {
 					case *ssa.UnOp: // load of the array / slice header
-						if u.Op != token.MUL || !readOnlyUse(u) {
+						if u.Op != token.MUL {
+							return false
+						}
+						if _, isArr := u.Type().Underlying().(*types.Array); isArr {
+							continue // an array loaded whole is a private copy: whatever is done with it stays with the caller
+						}
+						if !readOnlyUse(u) {
 							return false
 						}
 					case *ssa.IndexAddr: // &g[i] on an array variable
@@ -695,6 +701,11 @@ func (a *Analysis) onlyIndexedForReading(g *ssa.Global, startupOnly func(*ssa.Fu
 								return false
 							}
 						}
+					case *ssa.Return:
+						// an accessor handing out the table's address: every caller only indexes it for reading
+						if len(u.Results) != 1 || !a.accessorResultReadOnly(fn) {
+							return false
+						}
 					default:
 						return false
 					}
@@ -703,6 +714,79 @@ func (a *Analysis) onlyIndexedForReading(g *ssa.Global, startupOnly func(*ssa.Fu
 		}
 	}
 	return true
+}
+
+// accessorResultReadOnly: fn is only ever called directly, and the pointer it returns is only indexed for reading (or
+// copied whole) by every caller.
+func (a *Analysis) accessorResultReadOnly(acc *ssa.Function) bool {
+	loadOnly := func(v ssa.Value) bool {
+		for _, r := range *v.Referrers() {
+			switch l := r.(type) {
+			case *ssa.DebugRef:
+			case *ssa.UnOp:
+				if l.Op != token.MUL {
+					return false
+				}
+			default:
+				return false
+			}
+		}
+		return true
+	}
+	for fn := range a.P.AllFuncs {
+		if !a.P.InModule(fn) || fn.Blocks == nil || a.P.IsTestFile(fn.Pos()) {
+			continue
+		}
+		for _, b := range fn.Blocks {
+			for _, in := range b.Instrs {
+				for _, op := range in.Operands(nil) {
+					if op == nil || *op != ssa.Value(acc) {
+						continue
+					}
+					call, ok := in.(*ssa.Call)
+					if !ok || call.Call.Value != ssa.Value(acc) {
+						return false // the accessor as a value, deferred or spawned: its result is out of sight
+					}
+					refs := call.Referrers()
+					if refs == nil {
+						return false
+					}
+					for _, r := range *refs {
+						switch u := r.(type) {
+						case *ssa.DebugRef:
+						case *ssa.IndexAddr:
+							if u.X != ssa.Value(call) || !loadOnly(u) {
+								return false
+							}
+						case *ssa.UnOp: // the whole array copied out
+							if u.Op != token.MUL {
+								return false
+							}
+							for _, r2 := range *u.Referrers() {
+								switch r2.(type) {
+								case *ssa.DebugRef, *ssa.Index:
+								default:
+									return false
+								}
+							}
+						default:
+							return false
+						}
+					}
+				}
+			}
+		}
+	}
+	return true
+}
+
+func usesGlobal(in ssa.Instruction, g *ssa.Global) bool {
+	for _, op := range in.Operands(nil) {
+		if op != nil && *op == ssa.Value(g) {
+			return true
+		}
+	}
+	return false
 }
 
 // globalFacts: the package-level variables of the module, every instruction that writes them (or memory reachable from
@@ -867,6 +951,7 @@ func (a *Analysis) computeGlobalFacts() *globalFactsT {
 	sort.Slice(globals, func(i, j int) bool { return globals[i].String() < globals[j].String() })
 	var writes []globalWrite
 	readers := map[*ssa.Global]map[*ssa.Function]bool{}
+	users := map[*ssa.Global]map[*ssa.Function]bool{}
 	wtp := a.writesThroughParams()
 	for fn := range a.P.AllFuncs {
 		if !a.P.InModule(fn) || fn.Blocks == nil || a.P.IsTestFile(fn.Pos()) {
@@ -916,6 +1001,19 @@ func (a *Analysis) computeGlobalFacts() *globalFactsT {
 						readers[g][fn] = true
 					}
 				}
+				if _, dbg := in.(*ssa.DebugRef); !dbg {
+					for _, op := range in.Operands(nil) {
+						if op == nil {
+							continue
+						}
+						if g, ok := (*op).(*ssa.Global); ok && inModule(g) {
+							if users[g] == nil {
+								users[g] = map[*ssa.Function]bool{}
+							}
+							users[g][fn] = true
+						}
+					}
+				}
 			}
 		}
 	}
@@ -948,12 +1046,12 @@ func (a *Analysis) computeGlobalFacts() *globalFactsT {
 			if w.fn != fn {
 				continue
 			}
-			if w.what != "assign" {
-				return false
+			if w.what != "assign" && w.what != "store through" {
+				return false // (a table filled element by element in the once body is as good as one assigned whole)
 			}
-			for rfn := range readers[w.g] {
+			for rfn := range users[w.g] {
 				if rfn == fn {
-					return false
+					continue // the body runs alone under the Once: what it reads is what it wrote
 				}
 				var dos []ssa.Instruction
 				for _, b := range rfn.Blocks {
@@ -965,10 +1063,11 @@ func (a *Analysis) computeGlobalFacts() *globalFactsT {
 				}
 				for _, b := range rfn.Blocks {
 					for _, in := range b.Instrs {
-						ld, ok := in.(*ssa.UnOp)
-						if !ok || ld.X != ssa.Value(w.g) {
+						// every use of the variable – a load, the address of an element, the address handed on
+						if _, dbg := in.(*ssa.DebugRef); dbg || !usesGlobal(in, w.g) {
 							continue
 						}
+						ld := in
 						covered := false
 						for _, do := range dos {
 							if do.Block().Dominates(ld.Block()) && (do.Block() != ld.Block() || instrIndex(do) < instrIndex(ld)) {
@@ -1300,6 +1399,18 @@ func mapEscapes(v *Val, isMap func(*Val) bool) bool {
 	switch v.Op {
 	case "lookup", "lookupok", "len", "calc", "binop":
 		return false
+	case "unknown":
+		// a key or value obtained by ranging over the map: an element, not the map
+		if v.Name == "next-key" || v.Name == "next-val" || v.Name == "next-ok" {
+			return false
+		}
+	case "makeslice":
+		return false // a fresh slice sized by the map's length
+	case "call":
+		// a copy made by the library: the result shares nothing with its argument
+		if v.Name == "maps.Clone" || v.Name == "maps.Keys" || v.Name == "maps.Values" || v.Name == "slices.Collect" || v.Name == "slices.Sorted" {
+			return false
+		}
 	}
 	for _, a := range v.Args {
 		if mapEscapes(a, isMap) {
